@@ -277,3 +277,13 @@ def run(ck, prog, ctx):
               "%s cuts the UTF-8 bytes of a str at %s" % (owner, "a validated char boundary" if ok else "a byte count that is not validated with is_char_boundary: a multi-byte character can be split and the loader rejects the bytes"),
               where=b.where(t.line))
     ck.floor("TAINT", "str byte truncation sinks", len(sinks), 2)
+
+    # ------------------------------------------------------------------ LAYOUT: decoded fields are independent of each other
+    ck.rule("LAYOUT", "byte offsets of the record codecs as affine expressions of the decoded length fields; every optional store of a decoded field is guarded only by its own bytes (DESIGN 3.17)")
+    from props import layout
+    n_l = 0
+    for rx, owner in ((r"^parser::binary::term::from_bytes_v2$", r"HpoTermInternal"), (r"^parser::binary::term::from_bytes_v1$", r"HpoTermInternal")):
+        for db in prog.find(rx):
+            if layout.field_stores(prog, db, owner):
+                n_l += layout.check_field_independence(ck, "LAYOUT", prog, db, owner, db.name)
+    ck.floor("LAYOUT", "optional field stores in the term decoder", n_l, 2)
